@@ -566,8 +566,10 @@ def classify_known(regtext, stmt, a, b):
             return "F25"
         return "F24" if cyc else None
     if stmt == "compl":
-        if cyc:
-            return "F26" if rv.label_clash(a, b) else "F24"
+        # F24: the operand `o` (= a) is recursive.  (F26, label-blind subtraction with a cyclic
+        # operand, was fixed by f9e893e and no longer excuses anything.)
+        if "cycle" in rv.kinds(ra):
+            return "F24"
         if "unnamed" in rv.partial_names(ra) and "named" in rv.partial_names(rb):
             return PARTIAL_NAME_KEY
         return None
